@@ -329,3 +329,72 @@ Proof.
   eapply Permutation_Forall; [symmetry; apply sort_keys_perm | assumption].
 Qed.
 End KeyOrder.
+
+(* ---------- MEDIAN: the values are sorted numerically ---------- *)
+Lemma atom_leb_int' x y : atom_leb (AInt x) (AInt y) = Z.leb x y.
+Proof.
+  unfold atom_leb. rewrite atom_ltb_int. cbn [atom_eqb num_of]. unfold Qeq_bool, Zeq_bool. cbn. rewrite !Z.mul_1_r.
+  destruct (Z.ltb_spec x y), (Z.compare_spec x y), (Z.leb_spec x y); cbn; try reflexivity; lia.
+Qed.
+
+Fixpoint ins_z (a : Z) (l : list Z) : list Z :=
+  match l with [] => [a] | h :: t => if Z.leb a h then a :: h :: t else h :: ins_z a t end.
+Definition sort_z (l : list Z) : list Z := fold_right ins_z [] l.
+
+Lemma ins_atom_ints a l : ins_atom (AInt a) (ints l) = ints (ins_z a l).
+Proof.
+  induction l as [|h t IH]; [reflexivity|]. cbn [ints map ins_atom ins_z]. rewrite atom_leb_int'.
+  destruct (Z.leb a h); [reflexivity|]. cbn [map]. f_equal. exact IH.
+Qed.
+
+Lemma sort_atoms_ints l : sort_atoms (ints l) = ints (sort_z l).
+Proof.
+  induction l as [|a l IH]; [reflexivity|]. cbn [ints map sort_atoms fold_right sort_z].
+  change (fold_right ins_atom [] (map AInt l)) with (sort_atoms (ints l)). rewrite IH. apply ins_atom_ints.
+Qed.
+
+Lemma ins_z_perm a l : Permutation (ins_z a l) (a :: l).
+Proof. induction l as [|h t IH]; cbn; [reflexivity|]. destruct (Z.leb a h); [reflexivity|]. rewrite IH. apply perm_swap. Qed.
+
+Lemma sort_z_perm l : Permutation (sort_z l) l.
+Proof. induction l as [|a l IH]; cbn; [reflexivity|]. rewrite ins_z_perm. constructor. exact IH. Qed.
+
+Lemma ins_z_sorted a l : StronglySorted Z.le l -> StronglySorted Z.le (ins_z a l).
+Proof.
+  intros Hs. induction Hs as [|h t Hs IH Hh]; cbn; [constructor; constructor|].
+  destruct (Z.leb_spec a h).
+  - constructor; [constructor; assumption|]. constructor; [assumption|]. rewrite Forall_forall in *. intros y Hy. specialize (Hh y Hy). lia.
+  - constructor; [assumption|]. eapply Permutation_Forall; [symmetry; apply ins_z_perm|]. constructor; [lia | assumption].
+Qed.
+
+Lemma sort_z_sorted l : StronglySorted Z.le (sort_z l).
+Proof. induction l as [|a l IH]; cbn; [constructor | apply ins_z_sorted; exact IH]. Qed.
+
+(* MEDIAN over integers: the middle element of the ascending arrangement (odd count); for an even count the two middle
+   elements if they are equal, otherwise their mean *)
+Theorem median_is_middle (zs : list Z) :
+  zs <> [] ->
+  let s := sort_z zs in
+  let m := Nat.div (length zs) 2 in
+  Permutation s zs /\ StronglySorted Z.le s /\
+  agg_final KMedian (SList (ints zs)) =
+    (if Nat.odd (length zs) then Ok (VA (AInt (nth m s 0%Z)))
+     else if Z.eqb (nth (m - 1)%nat s 0%Z) (nth m s 0%Z) then Ok (VA (AInt (nth (m - 1)%nat s 0%Z)))
+          else Ok (VA (AFlt (Qred ((inject_Z (nth (m - 1)%nat s 0%Z) + inject_Z (nth m s 0%Z)) / 2))))).
+Proof.
+  intros Hne s m. split; [apply sort_z_perm|]. split; [apply sort_z_sorted|].
+  cbn [agg_final]. rewrite sort_atoms_ints. fold s.
+  assert (Hlen : length (ints s) = length zs).
+  { unfold ints. rewrite map_length. unfold s. apply Permutation_length. apply sort_z_perm. }
+  rewrite Hlen. fold m.
+  assert (Hnth : forall i : nat, (i < length zs)%nat -> nth i (ints s) ANone = AInt (nth i s 0%Z)).
+  { intros i Hi. unfold ints. rewrite (nth_indep _ ANone (AInt 0%Z)) by (rewrite map_length; unfold s; rewrite (Permutation_length (sort_z_perm zs)); exact Hi).
+    apply (map_nth AInt s 0%Z i). }
+  assert (Hpos : (0 < length zs)%nat) by (destruct zs; [congruence | cbn; lia]).
+  assert (Hm : (m < length zs)%nat) by (unfold m; apply Nat.div_lt; lia).
+  destruct (Nat.odd (length zs)) eqn:Eo.
+  - rewrite (Hnth m Hm). reflexivity.
+  - rewrite (Hnth m Hm), (Hnth (m - 1)%nat) by lia. rewrite atom_eqb_cls. cbn [cls cls_eqb].
+    unfold Qeq_bool, Zeq_bool. cbn [Qnum Qden inject_Z]. rewrite !Z.mul_1_r. rewrite Z.eqb_compare.
+    destruct (Z.compare _ _); reflexivity.
+Qed.
